@@ -26,7 +26,8 @@ impl RingBuffer {
             return self.consumer - self.producer - 1;
         }
 
-        self.buffer.len() - self.producer + self.consumer - 1
+        // saturating: a ring created with size 0 has no room at all
+        (self.buffer.len() - self.producer + self.consumer).saturating_sub(1)
     }
 
     fn read_size(&self) -> usize {
